@@ -894,6 +894,11 @@ def hist_c20(out, sim, rng, n, extra):
     budget = 6 * (len(plan) + windows + 4) + 40
     trace = []
     gaps = 0
+    deferred = []           # resend requests the counterparty has not read yet
+    defer_p = rng.choice([0, 0, 0.3, 0.7])
+    cp_asks_p = rng.choice([0, 0, 0.08, 0.2])   # the counterparty asks the session for a resend of its own (always legitimate)
+    if defer_p or cp_asks_p:
+        budget *= 4
 
     def pump(raw, label):
         """deliver one message; react to what the session sends back"""
@@ -931,11 +936,24 @@ def hist_c20(out, sim, rng, n, extra):
             if kind[0] == 'testreq':
                 pending += pump(cp.emit('hbreply:' + (kind[1] or '')), 'hb-reply')
             elif kind[0] == 'resend':
+                if not kind[-1] == 'now' and len(deferred) < 3 and rng.random() < defer_p:
+                    # the counterparty has more in flight before it reads the request: its answer comes later
+                    deferred.append(kind)
+                    trace.append('defer')
+                    continue
                 for raw in cp.answer_resend(kind[1], kind[2]):
                     pending += pump(raw, 'replay')
                     if s.q().get('shutdown') == '1':
                         return 'terminated-during-replay'
         return None
+
+    def flush_deferred():
+        why = None
+        while deferred and not why:
+            k = deferred.pop(0)
+            trace.append('late-answer[%d,%d]' % (k[1], k[2]))
+            why = settle([k + ('now',)])
+        return why
 
     ctx = lambda: 'case %d role=%s persist=%s plan=%s trace=%s' % (n, role, persist, ''.join(('A' if k == 'app' else 'h') + ('x' if l else '') + ('R' if rc else '') for k, l, rc in plan), trace[-12:])
     for i, (kind, lost, reconnect) in enumerate(plan):
@@ -960,6 +978,26 @@ def hist_c20(out, sim, rng, n, extra):
             if why or q.get('shutdown') == '1' or q.get('state') not in ('continuous', 'resend_request_sent'):
                 out.v('oracle:reconnect-with-higher-logon-number-fails', '%s: %s state=%s shutdown=%s' % (ctx(), why, q.get('state'), q.get('shutdown')), s)
                 return
+        if deferred and rng.random() < 0.5:
+            why = flush_deferred()
+            q = s.q()
+            if why or q.get('shutdown') == '1':
+                out.v('oracle:session-terminated-or-rejected-with-conformant-counterparty|' + (why or 'shutdown').split(':')[0],
+                      '%s: %s state=%s (late answer to a resend request)' % (ctx(), why, q.get('state')), s)
+                return
+        if cp_asks_p and rng.random() < cp_asks_p:
+            # serving the counterparty's request must not disturb the session's own recovery
+            ns = int(s.q()['send'])
+            b = rng.randint(max(1, ns - 6), ns)
+            trace.append('cp-asks[%d,0]@%d' % (b, s.peer_seq))
+            seq = s.peer_seq
+            cp.log[seq] = ('admin', '2', s.now)
+            why = settle(pump(s.peer_msg('2', [(7, b), (16, 0)]), 'cp-resend-request'))
+            q = s.q()
+            if why or q.get('shutdown') == '1':
+                out.v('oracle:session-terminated-or-rejected-with-conformant-counterparty|' + (why or 'shutdown').split(':')[0],
+                      '%s: %s state=%s (after the counterparty\'s own resend request)' % (ctx(), why, q.get('state')), s)
+                return
         ident += 1
         cid = 'g%d_%d' % (n, ident)
         raw = cp.emit(kind, cid)
@@ -977,7 +1015,31 @@ def hist_c20(out, sim, rng, n, extra):
                   '%s: %s state=%s' % (ctx(), why, q.get('state')), s)
             return
         s.adv(rng.choice([0, 3, 50]))
+    if deferred:
+        why = flush_deferred()
+        q = s.q()
+        if why or q.get('shutdown') == '1':
+            out.v('oracle:session-terminated-or-rejected-with-conformant-counterparty|' + (why or 'shutdown').split(':')[0],
+                  '%s: %s state=%s (late answer to a resend request)' % (ctx(), why, q.get('state')), s)
+            return
+        # something in sequence arrives after the late answers, so that what they left open can be noticed
+        for kind in ('hb', 'app'):
+            ident += 1
+            cid = 'g%d_%d' % (n, ident)
+            raw = cp.emit(kind, cid)
+            if kind == 'app':
+                sent_ids.append(cid)
+            why = settle(pump(raw, kind))
+            if not why and deferred:
+                why = flush_deferred()
+            q = s.q()
+            if why or q.get('shutdown') == '1':
+                out.v('oracle:session-terminated-or-rejected-with-conformant-counterparty|' + (why or 'shutdown').split(':')[0],
+                      '%s: %s state=%s' % (ctx(), why, q.get('state')), s)
+                return
     out.stat('histories_with_gaps', 1 if gaps else 0)
+    out.stat('histories_with_late_answers', 1 if any(t.startswith('late-answer') for t in trace) else 0)
+    out.stat('histories_with_counterparty_requests', 1 if any(t.startswith('cp-asks') for t in trace) else 0)
     out.stat('counterparty_messages', len(cp.log))
     out.stat('exchanges', exchanges)
     q = s.q()
